@@ -1713,6 +1713,8 @@ class Analyzer(Analysis):
             elif d is not None and d[0] == "discr" and d[1][0] == "adt":
                 # statically known variant (e.g. matching on a literal Ok(..), or the Err a helper returned on this path)
                 ix = _STD_VARIANT_INDEX.get((d[1][1], d[1][2]))
+                if ix is None:
+                    ix = self.variant_index(d[1][1], d[1][2])
                 if ix is not None:
                     hit = [tgt for v, tgt in arms if v == ix]
                     out.append((hit[0] if hit else t["otherwise"], st.copy()))
@@ -2063,6 +2065,22 @@ class Analyzer(Analysis):
             if l in names and l > b.argc and b.local_ty(l)["k"] == "bool" and all(cs) and len(cs) >= 2:
                 out.append(l)
         return sorted(out)[:3]
+
+    def variant_index(self, short, variant):
+        """discriminant of `variant` of the workspace enum whose path ends in `short` (None when ambiguous / unknown)"""
+        cache = getattr(self.b.prog, "_variant_index_cache", None)
+        if cache is None:
+            cache = {}
+            for name, a in self.b.prog.adts.items():
+                if a.get("kind") != "enum":
+                    continue
+                sh = name.split("::")[-1]
+                for i, v in enumerate(a["variants"]):
+                    dv = int(v["discr"]) if v.get("discr") is not None else i
+                    cache.setdefault((sh, v["name"]), set()).add(dv)
+            self.b.prog._variant_index_cache = cache
+        vals = cache.get((short, variant))
+        return list(vals)[0] if vals and len(vals) == 1 else None
 
     def mode_key(self, st):
         key = []
